@@ -77,11 +77,12 @@ impl<T: Types> RaftLogWriter<T> for RaftLog<T> {
 
     fn append<I>(&mut self, entries: I) -> Result<Segment, io::Error>
     where I: IntoIterator<Item = (T::LogId, T::LogPayload)> {
+        let mut seg = self.wal.last_segment();
         for (log_id, payload) in entries {
             let record = WALRecord::Append(log_id, payload);
-            self.append_and_apply(&record)?;
+            seg = self.append_and_apply(&record)?;
         }
-        Ok(self.wal.last_segment())
+        Ok(seg)
     }
 
     /// Truncate at `index`, keep the record before `index`.
@@ -508,17 +509,21 @@ impl<T: Types> RaftLog<T> {
         }
 
         WAL::append(&mut self.wal, rec)?;
+        // The segment of the record just written. Must be taken before a
+        // possible rotation: afterwards `last_segment()` is the head State
+        // record of the new chunk.
+        let seg = self.wal.last_segment();
         StateMachine::apply(
             &mut self.state_machine,
             rec,
             self.wal.open.chunk.chunk_id(),
-            self.wal.last_segment(),
+            seg,
         )?;
 
         self.wal
             .try_close_full_chunk(|| self.state_machine.log_state.clone())?;
 
-        Ok(self.wal.last_segment())
+        Ok(seg)
     }
 
     /// Read-only view of the payload cache's resident set: `(log id, payload
